@@ -38,6 +38,29 @@ inductive Val where
   | tuple (l : List Val)
   | other (text : String)      -- any other object: `str(value)`
 
+instance : Inhabited Val := ⟨.none⟩
+
+/-! the tests and conversions `format` applies to its value -/
+def Val.isEmptyStr : Val → Bool | .str s => s == "" | _ => false       -- `value == ""`
+def Val.isNone : Val → Bool | .none => true | _ => false                -- `value is None`
+def Val.isBool : Val → Bool | .bool _ => true | _ => false              -- `isinstance(value, bool)`
+def Val.isNum : Val → Bool | .num _ => true | _ => false                -- `isinstance(value, float)`
+def Val.isTuple : Val → Bool | .tuple _ => true | _ => false            -- `isinstance(value, (tuple, list, set))`
+def Val.items : Val → List Val | .tuple l => l | _ => []                -- `for v_i in value`
+def Val.boolText : Val → String | .bool true => "true" | _ => "false"   -- `str(value).lower()`
+def Val.numStr (d : ℕ) : Val → String | .num x => numText d x | _ => "" -- `Op.str(value)`
+def Val.strOf : Val → String | .str s => s | .other t => t | _ => ""    -- `str(value)`
+
+mutual
+/-- nesting depth of a value (bounds the recursion of `format`) -/
+def Val.depth : Val → ℕ
+  | .tuple l => Val.depthL l + 1
+  | _ => 0
+def Val.depthL : List Val → ℕ
+  | [] => 0
+  | v :: r => max (Val.depth v) (Val.depthL r)
+end
+
 mutual
 /-- what `format` appends to `result` for the value -/
 def pieces (d : ℕ) : Val → List String
